@@ -371,6 +371,11 @@ def build(seed: int, family: str | None = None, allow_restart: bool = True) -> S
             if rs.rand() < 0.3:
                 d.default_label = int(rs.choice([0, -1, 5]))
             mc.add_move(d if rs.rand() < 0.6 else d * 2, criteria=CanonicalCriteria(), name="disp")
+        if rs.rand() < 0.3:
+            # one trial that displaces a particle AND exchanges one (a plain composite of a displacement and an exchange move)
+            d3 = RecDisp(lab.copy(), disp_op(rs, molecular))
+            e3 = RecExch(lab.copy(), Translation() if not molecular else TranslationRotation())
+            mc.add_move((d3 + e3) if rs.rand() < 0.5 else (e3 + d3), criteria=GrandCanonicalCriteria(), name="disp_exch")
     elif fam == "gcdrain":
         # a grand-canonical run that tends to EMPTY the system (deletions favoured), with a composite displacement move
         # that is called before and after the last movable particle has gone, and a single one
